@@ -805,7 +805,8 @@ def part_time_step(ctx, env, meshes):
 def run(ctx: common.Ctx):
   env = Env(ctx)
   ctx.lean('DinoProofs.Properties.C07', 'C07.txt',
-           extra_files=['DinoProofs/Lemmas/Shard.lean', 'DinoProofs/Lemmas/ShardPad.lean', 'Dino/Shard.lean',
+           extra_files=['DinoProofs/Lemmas/Shard.lean', 'DinoProofs/Lemmas/ShardPad.lean',
+                        'DinoProofs/Lemmas/ShardBasis.lean', 'Dino/Shard.lean',
                         'Dino/ShardDrv.lean'])
   rng = ctx.rng
   meshes = all_meshes()
